@@ -132,10 +132,10 @@ def run(c):
     if q:
         runs = [("MC_HeadersCore", "MC_BodiesCore", "MC_PreNone", 2)]
     else:
-        runs = [("MC_HeadersMore", "MC_BodiesMore", "MC_PreSome", 2), ("MC_HeadersCore", "MC_BodiesCore", "MC_PreNone", 3)]
+        runs = [("MC_HeadersMore", "MC_BodiesCore", "MC_PreNone", 2), ("MC_HeadersCore", "MC_BodiesMore", "MC_PreSome", 2)]
     cases = []
     for hs, bs, ps, mb in runs:
-        emit = (hs, mb) != ("MC_HeadersCore", 3)
+        emit = True
         r = c.mc_holds("SshConfig_MC", mc_cfg(hs, bs, ps, mb, invariants=INVS + (["Emit"] if emit else [])),
                        name="repaired walk %s x %s, %d blocks" % (hs, bs, mb), workers=1 if emit else 16)
         if emit:
@@ -165,7 +165,7 @@ def run(c):
     n_rp = len(records)
     stage["replay_s"] = round(time.time() - t0, 1)
     # ---- TV: random configs of up to 12 blocks, three hostnames each
-    for _ in range(700 if q else 12000):
+    for _ in range(700 if q else 8000):
         cfg = rnd_config(rnd)
         hosts = [rnd_host(rnd) for _ in range(3)]
         text = drv.cfg_render(cfg, rnd)
